@@ -21,6 +21,43 @@ var noPanicAllow = map[string]string{
 	"fmt.Sprintf":                          "formats any operands; operands are basic values, strings, errors",
 	"fmt.Sprint":                           "formats any operands",
 	"errors.New":                           "allocates an error",
+	"fmt.Errorf":                           "formats any operands (panics of operand methods are recovered by fmt)",
+	"fmt.Sprintln":                         "formats any operands",
+	"errors.Is":                            "walks the error chain",
+	"errors.Unwrap":                        "pure",
+	"strings.HasPrefix":                    "pure",
+	"strings.HasSuffix":                    "pure",
+	"strings.TrimSpace":                    "pure",
+	"strings.ToLower":                      "pure",
+	"strings.ToUpper":                      "pure",
+	"strings.Join":                         "pure",
+	"strings.Split":                        "pure",
+	"strings.Fields":                       "pure",
+	"strings.Index":                        "pure",
+	"(*strings.Builder).WriteString":       "appends to a buffer",
+	"(*strings.Builder).WriteByte":         "appends to a buffer",
+	"(*strings.Builder).String":            "pure",
+	"strconv.Itoa":                         "pure",
+	"strconv.Quote":                        "pure",
+	"(time.Time).Sub":                      "pure arithmetic on a value",
+	"(time.Time).Before":                   "pure",
+	"(time.Time).After":                    "pure",
+	"(time.Time).Equal":                    "pure",
+	"(time.Time).Weekday":                  "pure",
+	"(time.Time).Year":                     "pure",
+	"(time.Time).Month":                    "pure",
+	"(time.Time).Day":                      "pure",
+	"(time.Time).Date":                     "pure",
+	"(time.Time).UTC":                      "pure",
+	"(time.Time).Unix":                     "pure",
+	"(time.Time).UnixMilli":                "pure",
+	"(time.Duration).Seconds":              "pure",
+	"(time.Duration).String":               "pure",
+	"math.Abs":                             "pure",
+	"math.Floor":                           "pure",
+	"math.Round":                           "pure",
+	"math.Pow":                             "pure",
+	"math.Ldexp":                           "pure",
 	"encoding/hex.Dump":                    "pure function of a byte slice",
 	"strings.Replace":                      "pure",
 	"strings.ReplaceAll":                   "pure",
